@@ -2,7 +2,7 @@ SPECIFICATION Spec
 CONSTANTS
   CopyMode = "rebuild"
   Mode = "fold"
-  Universe <- UFoldQ
+  Universe <- UOrder
   Sharings = {"none", "doc"}
   AnyOrder = TRUE
   NB = 1
